@@ -11,7 +11,7 @@ from harness.drivers import searcher as D
 from harness.props import c06
 from harness.validate import validate
 
-FLAGS = {"twin_diverged", "repeat", "none_premature", "initial_order", "scheduler_raised", "outside_domain"}
+FLAGS = {"twin_diverged", "repeat", "initial_order", "scheduler_raised", "outside_domain"}      # (premature "nothing left": C06, known finding F22)
 DILL_KINDS = ["fifo_random", "fifo_random_dup", "fifo_grid", "hb_random", "hb_random_promo", "synchb", "dehb", "pbt", "regevo",
               "hbt_pasha", "hbt_rush_stopping", "hbt_rush_promotion", "hbt_cost_promotion", "moasha", "median"]
 STATE_KINDS = ["fifo_random", "fifo_random_dup", "fifo_grid", "hb_random"]
